@@ -33,6 +33,8 @@ def frag_base(e, depth=0):
     e = E.strip_casts(e)
     if e == ("const", 0):
         return "B0"
+    if e[0] == "bin" and e[1] == "Add" and E.strip_casts(e[2]) == ("const", 1) and E.strip_casts(e[3])[0] != "const":
+        e = ("bin", "Add", e[3], ("const", 1))     # 1 + x
     if e[0] == "bin" and e[1] in ("Add", "Sub") and e[3][0] == "const" and e[3][1] == 1:
         b = frag_base(e[2], depth + 1)
         if e[1] == "Add":
@@ -73,7 +75,7 @@ def callee_convention(facts):
         e = E.strip_casts(fc.arg(t, idx))
         if e == ("param", pidx, ()):
             return "B1", pidx, b
-        if e[0] == "bin" and e[1] == "Add" and E.strip_casts(e[2]) == ("param", pidx, ()) and e[3] == ("const", 1):
+        if e[0] == "bin" and e[1] == "Add" and {E.strip_casts(e[2]), E.strip_casts(e[3])} == {("param", pidx, ()), ("const", 1)}:
             return "B0", pidx, b
         if e[0] == "bin" and e[1] == "Sub" and E.strip_casts(e[2]) == ("param", pidx, ()) and e[3] == ("const", 1):
             return "B2", pidx, b
@@ -110,6 +112,9 @@ def callers(facts, rep, want, pidx):
                     continue
                 op, x, y = c
                 xs, ys = E.strip_casts(x), E.strip_casts(y)
+                if E.same(ys, subj) and is_fragment_count(xs):
+                    # `count >= value` is `value <= count`
+                    op, xs, ys = {"Lt": "Gt", "Gt": "Lt", "Le": "Ge", "Ge": "Le"}.get(op, op), ys, xs
                 if E.same(xs, subj) and is_fragment_count(ys):
                     good = {"B0": ("Lt",), "B1": ("Le",)}.get(sb, ())
                     rep.add("R05a", ob.sname, "bound test of a %s fragment value against the fragment count" % sb, op in good,
